@@ -776,6 +776,13 @@ int libxmp_scan_sequences(struct context_data *ctx)
 		}
 	}
 
+	/* Orders visited only by discarded scans don't belong to any sequence. */
+	for (i = 0; i < mod->len; i++) {
+		if (p->sequence_control[i] >= seq) {
+			p->sequence_control[i] = 0xff;
+		}
+	}
+
 	if (seq < mod->len) {
 		s = (struct scan_data *) realloc(p->scan, seq * sizeof(struct scan_data));
 		if (s != NULL) {
